@@ -35,6 +35,10 @@ func (acc *DB) GenesisInit(addr string, amount int64) (receipt *types.Receipt, e
 
 // GenesisInitExec 生成创世地址执行器账户收据
 func (acc *DB) GenesisInitExec(addr string, amount int64, execaddr string) (receipt *types.Receipt, err error) {
+	// refuse what ExecDeposit below would refuse, before the executor account has been credited
+	if !acc.CheckAmount(amount) {
+		return nil, types.ErrAmount
+	}
 	accTo := acc.LoadAccount(execaddr)
 	copyto := types.CloneAccount(accTo)
 	accTo.Balance, err = safeAdd(accTo.GetBalance(), amount)
